@@ -10,21 +10,22 @@ def run(tier, replay, prop="C08"):
     sd = vlib.scratch_dir(prop.lower())
     try:
         th = tier == "thorough"
-        n = 160 if not th else 4000
+        DRV = bslib.bsdriver_path("asan")
+        n = 320 if not th else 4000
         base = 0 if prop == "C08" else 500000
-        jobs = [dict(seed=chk.seed, index=base + i, sd=sd, flavor="asan", steps=14 if not th else 24) for i in range(n)]
+        jobs = [dict(seed=chk.seed, index=base + i, sd=sd, flavor="asan", driver=DRV, steps=14 if not th else 24) for i in range(n)]
         if th:
             vlib.build_flavor("tsan")
             jobs += [dict(seed=chk.seed, index=base + 100000 + i, sd=sd, flavor="tsan", steps=12) for i in range(300)]
         if replay:
             w = json.load(open(replay))["witness"]
-            jobs = [dict(seed=w["seed"], index=w["index"], sd=sd, flavor="asan", steps=40)]
+            jobs = [dict(seed=w["seed"], index=w["index"], sd=sd, flavor="asan", driver=DRV, steps=40)]
         results = vlib.pmap(bs_runner.run_history, jobs)
-        tot = dict(builds=0, ok_builds=0, failed_builds=0, null_builds=0, commands_run=0, steps=0, files_checked=0, clean_oracle_runs=0, unexpected_failures=0)
+        tot = dict(node_builds=0, builds=0, ok_builds=0, failed_builds=0, null_builds=0, commands_run=0, steps=0, files_checked=0, clean_oracle_runs=0, unexpected_failures=0)
         shapes, kinds = set(), {}
         for r in results:
             for k in tot:
-                tot[k] += r[k]
+                tot[k] += r.get(k, 0)
             for k, v in r["step_kinds"].items():
                 kinds[k] = kinds.get(k, 0) + v
             if r["nontrivial"]:
